@@ -1,4 +1,5 @@
 mod common;
+mod diffgen;
 mod coqw;
 mod emit;
 mod filegen;
@@ -9,6 +10,7 @@ mod props {
     pub mod c09;
     pub mod keys;
     pub mod blocksgen;
+    pub mod drift;
 }
 
 use common::{CaseOut, Tier};
@@ -21,6 +23,7 @@ fn prop_header(prop: &str) -> &'static str {
         "C09" => props::c09::HEADER,
         "C06" | "C07" | "C08" => props::keys::HEADER,
         "C03" | "C05" | "C12" => props::blocksgen::HEADER,
+        "C01" | "C02" => props::drift::HEADER,
         _ => panic!("unknown property {prop}"),
     }
 }
@@ -28,6 +31,8 @@ fn prop_header(prop: &str) -> &'static str {
 fn prop_gen(prop: &str, rng: &mut Rng, idx: usize, tier: Tier) -> CaseOut {
     match prop {
         "C09" => props::c09::generate(rng, idx, tier),
+        "C01" => props::drift::generate(rng, idx, tier, false),
+        "C02" => props::drift::generate(rng, idx, tier, idx % 2 == 1),
         "C03" => props::blocksgen::generate(props::blocksgen::Mode::Blocks, rng, idx, tier),
         "C05" => props::blocksgen::generate(props::blocksgen::Mode::Tags, rng, idx, tier),
         "C12" => props::blocksgen::generate(props::blocksgen::Mode::Damaged, rng, idx, tier),
